@@ -145,4 +145,105 @@ theorem ioWrites_inv (cfg : Cfg) (hB : 0 < cfg.bufSize) {c : List UInt8} (ws : L
       have := ih h2
       simpa [List.append_assoc] using this
 
+@[simp] theorem ioCloseDest_content (s : St) : (ioCloseDest s).dest.content = s.dest.content := by
+  unfold ioCloseDest; split <;> rfl
+@[simp] theorem ioCloseDest_offset (s : St) : (ioCloseDest s).dest.offset = s.dest.offset := by
+  unfold ioCloseDest; split <;> rfl
+@[simp] theorem ioCloseDest_kind (s : St) : (ioCloseDest s).dest.kind = s.dest.kind := by
+  unfold ioCloseDest; split <;> rfl
+@[simp] theorem ioCloseDest_restore (s : St) : (ioCloseDest s).restoreFlags = false := by
+  unfold ioCloseDest; split <;> simp_all
+theorem ioCloseDest_flags (s : St) :
+    (ioCloseDest s).dest.flags = (if s.restoreFlags then s.savedFlags else s.dest.flags) := by
+  unfold ioCloseDest; split <;> simp_all
+
+theorem close_tail {c W : List UInt8} {s' : St} (k : Nat) (hreg : s'.dest.kind = .regular)
+    (hna : s'.dest.flags.append = false) (hoff : s'.dest.offset = s'.dest.content.length + k)
+    (hd : s'.dest.content ++ zeros (k + 1) = c ++ W) :
+    (ioWriteBuf s' [0]).dest.content = c ++ W ∧ (ioWriteBuf s' [0]).dest.offset = (c ++ W).length
+      ∧ (ioWriteBuf s' [0]).dest.kind = .regular := by
+  obtain ⟨h1, h2, h3, _⟩ := write_at_end hreg hna k hoff [0]
+  have hz : zeros k ++ [0] = zeros (k + 1) := by simp [zeros, List.replicate_succ']
+  have hc : (s'.dest.write [0]).content = c ++ W := by rw [h1, List.append_assoc, hz, hd]
+  simp only [ioWriteBuf, List.isEmpty_cons, Bool.false_eq_true, if_false]
+  exact ⟨hc, by rw [h2, hc], h3⟩
+
+theorem ioClose_success_inv (cfg : Cfg) {c W : List UInt8} {s : St} (h : Inv c W s) :
+    (ioClose cfg s true).dest.content = c ++ W ∧
+    (ioClose cfg s true).dest.offset = (c ++ W).length ∧
+    (ioClose cfg s true).dest.kind = .regular := by
+  unfold ioClose
+  simp only [Bool.true_or, Bool.true_and, h.sparse, ioCloseDest_content, ioCloseDest_offset, ioCloseDest_kind]
+  split
+  · rename_i hp
+    have hp : 0 < s.pending := by simpa using hp
+    simp only [Dest.seekCur, h.reg]
+    apply close_tail (k := s.pending - 1)
+    · rfl
+    · exact h.noApp
+    · simp [h.atEnd]
+    · have : s.pending - 1 + 1 = s.pending := by omega
+      rw [this]; exact h.data
+  · rename_i hp
+    have hp0 : s.pending = 0 := by simpa using hp
+    have := h.data
+    rw [hp0] at this
+    simp [zeros] at this
+    exact ⟨this, by rw [h.atEnd, this], h.reg⟩
+
+
+/-! frame: what io_write never touches -/
+structure Frame (s t : St) : Prop where
+  kind : t.dest.kind = s.dest.kind
+  flags : t.dest.flags = s.dest.flags
+  restore : t.restoreFlags = s.restoreFlags
+  saved : t.savedFlags = s.savedFlags
+  isStdout : t.isStdout = s.isStdout
+  sparse : t.trySparse = s.trySparse
+
+theorem Frame.refl (s : St) : Frame s s := ⟨rfl, rfl, rfl, rfl, rfl, rfl⟩
+theorem Frame.trans {a b c : St} (h1 : Frame a b) (h2 : Frame b c) : Frame a c :=
+  ⟨h2.kind.trans h1.kind, h2.flags.trans h1.flags, h2.restore.trans h1.restore, h2.saved.trans h1.saved,
+   h2.isStdout.trans h1.isStdout, h2.sparse.trans h1.sparse⟩
+
+theorem Dest.write_kind (d : Dest) (b : List UInt8) : (d.write b).kind = d.kind := by
+  unfold Dest.write; split <;> simp_all
+theorem Dest.write_flags (d : Dest) (b : List UInt8) : (d.write b).flags = d.flags := by
+  unfold Dest.write; split <;> simp_all
+
+theorem ioWriteBuf_frame (s : St) (b : List UInt8) : Frame s (ioWriteBuf s b) := by
+  unfold ioWriteBuf
+  split
+  · exact Frame.refl s
+  · exact ⟨Dest.write_kind _ _, Dest.write_flags _ _, rfl, rfl, rfl, rfl⟩
+
+theorem ioWrite_frame (cfg : Cfg) (s : St) (b : List UInt8) : Frame s (ioWrite cfg s b).1 := by
+  unfold ioWrite
+  split
+  · split
+    · exact ⟨rfl, rfl, rfl, rfl, rfl, rfl⟩
+    · split
+      · exact Frame.refl s
+      · split
+        · cases hk : s.dest.kind with
+          | other => simp [Dest.seekCur, hk]; exact Frame.refl s
+          | regular =>
+            simp only [Dest.seekCur, hk]
+            refine Frame.trans ?_ (ioWriteBuf_frame _ b)
+            exact ⟨by simp [hk], rfl, rfl, rfl, rfl, rfl⟩
+        · exact ioWriteBuf_frame s b
+  · exact ioWriteBuf_frame s b
+
+theorem ioWrites_frame (cfg : Cfg) (ws : List (List UInt8)) : ∀ s : St, Frame s (ioWrites cfg s ws).1 := by
+  induction ws with
+  | nil => intro s; exact Frame.refl s
+  | cons b bs ih =>
+    intro s
+    unfold ioWrites
+    have hf := ioWrite_frame cfg s b
+    split
+    · rename_i s' he; rw [he] at hf; exact hf
+    · rename_i s' he; rw [he] at hf; exact Frame.trans hf (ih s')
+
+
 end XzVerif.Sparse
